@@ -297,7 +297,7 @@ def run(pid, tier="quick", seed=0, nproc=None, cap_s=None, confirm=True):
                     path, (p.stdout + p.stderr)[-800:]))
                 return 2
         reported.append((v, path))
-        if len(reported) >= 8:
+        if len(reported) >= int(os.environ.get("VERIF_MAX_REPORT", "8")):
             break
     for v, path in reported:
         print("  sig=%s :: %s" % (v.get("sig"), str(v.get("msg"))[:300]))
